@@ -221,12 +221,12 @@ def start_compare(decl, ps, o):
     return out
 
 
-FAMPREFIX = ('C09', 'C11', 'C14')
+FAMPREFIX = ('C09', 'C11', 'C14', 'C18')
 
 
 def replay(rec):
     out = replay0(rec)
-    fam = rec.get('fam')
+    fam = 'C18' if rec.get('saveload') else rec.get('fam')
     if fam in FAMPREFIX:
         out['results'] = [((c if c.startswith(fam + '.') or c in ('build', 'varmap', 'harness') else fam + '.' + c), s, d) for c, s, d in out['results']]
     return out
@@ -254,6 +254,10 @@ def replay0(rec):
             from build import apply_guesses
             transcribe(b)
             quiet(apply_guesses, b, d_last if when == 'split' else decl)
+        if rec.get('saveload'):
+            from build import through_save_load
+            b_orig = b
+            b = through_save_load(b)
         o = observe(b)
     except Exception as e:
         return {'results': [('build', 'error', '%s: %s' % (type(e).__name__, str(e).splitlines()[0] if str(e) else ''))],
